@@ -234,7 +234,14 @@ public:
   void append(const T* values, usize size)
   {
     usize oldSize = _end.item - _begin.item;
-    reserve(oldSize + size);
+    if(values >= _begin.item && values < _end.item)
+    { // values points into this array, whose storage reserve() may replace
+      usize offset = values - _begin.item;
+      reserve(oldSize + size);
+      values = _begin.item + offset;
+    }
+    else
+      reserve(oldSize + size);
     T* item = _end.item;
     for(T* end = item + size; item < end; ++item, ++values)
     {
